@@ -202,22 +202,45 @@ def discharge(ctx, s, scope=None):
     # -- dead code under a constant argument: the site is only reachable when parameter k is Some, and every caller
     #    in scope passes None
     if scope is not None:
-        root = ctx.facts.root_fn(body)
-        if root is not None and root.key != body.key or True:
-            tgt = root if root is not None else body
-            # locate the closure creation / site block in the root function
-            site_bb = bb if tgt.key == body.key else None
-            if site_bb is None:
-                for b2 in tgt.blocks:
-                    for st in b2['stmts']:
-                        if st['k'] == 'assign' and st['rv']['k'] == 'aggregate' and st['rv']['kind'].get('a') == 'closure' and st['rv']['kind']['path'] == body.path:
-                            site_bb = b2['i']
-            if site_bb is not None:
-                for (sw, cond, arms, targets) in ctx.path_conditions(tgt, site_bb):
-                    if cond.tag == 'discr' and cond[1].tag == 'param' and cond[1][1] == tgt.key and arms == ('1',):
-                        ty = ctx.discr_type(tgt, tgt.block[sw]['term']['discr']) or ''
-                        if ty.startswith('std::option::Option<') and callers_pass_none(ctx, tgt, cond[1][2], scope):
-                            return 'only reachable when parameter %d of %s is Some; every caller in the analysed set passes None' % (cond[1][2], tgt.path)
+        # walk from the site outwards through the closures it is nested in; at every level the code runs only if
+        #   (a) the dominating `if let Some(..) = param` conditions at that level hold, and
+        #   (b) the closure is the argument of Option::map / and_then / .. on a parameter, which calls it only for Some
+        cur, cur_bb = body, bb
+        for _ in range(4):
+            for (sw, cond, arms, targets) in ctx.path_conditions(cur, cur_bb):
+                if cond.tag == 'discr' and cond[1].tag == 'param' and cond[1][1] == cur.key and arms == ('1',) and not cur.is_closure:
+                    ty = ctx.discr_type(cur, cur.block[sw]['term']['discr']) or ''
+                    if ty.startswith('std::option::Option<') and callers_pass_none(ctx, cur, cond[1][2], scope):
+                        return 'only reachable when parameter %d of %s is Some; every caller in the analysed set passes None' % (cond[1][2], cur.path)
+            if not cur.is_closure:
+                break
+            cs = ctx.closure_site(cur)
+            if cs is None:
+                break
+            pb, pbb, psi, pst = cs
+            if not pst['place']['p'] and not pb.is_closure:
+                # which call consumes the closure?
+                cl = pst['place']['l']
+                cfgp = ctx.cfgof(pb)
+                seen_b, work = set(), [pbb]
+                while work:
+                    x = work.pop()
+                    if x in seen_b or len(seen_b) > 12:
+                        continue
+                    seen_b.add(x)
+                    t2 = pb.block[x]['term']
+                    if t2['k'] == 'call' and any(a['k'] in ('move', 'copy') and a['place']['l'] == cl and not a['place']['p'] for a in t2['args']):
+                        d2 = callee_decl(t2)
+                        if d2.startswith('std::option::Option::<T>::') and d2.split('::')[-1] in ('map', 'and_then', 'map_or', 'map_or_else', 'inspect', 'is_some_and', 'filter') and t2['args']:
+                            recv = ctx.eng.operand(pb, x, TERM_IDX, t2['args'][0])
+                            r0 = recv
+                            while r0.tag == 'mut':
+                                r0 = r0[1]
+                            if r0.tag == 'param' and r0[1] == pb.key and pb.local_ty(r0[2]).startswith('std::option::Option<') and callers_pass_none(ctx, pb, r0[2], scope):
+                                return 'only run by Option::%s on parameter %d of %s; every caller in the analysed set passes None' % (d2.split('::')[-1], r0[2], pb.path)
+                        break
+                    work.extend(cfgp.succ.get(x, []))
+            cur, cur_bb = pb, pbb
 
     if kind in ('int_arith:shr', 'int_arith:shl') and len(ops) == 2:
         views = [(canon(ops[1]), known())]
